@@ -95,7 +95,12 @@ CheckFix(n) ==
         ELSE IF "setListing" \in s.dev \cup rd THEN "/as-alg/+setListing"               \* a set is listed where the order shows: any outcome
         ELSE LET d == ((s.dev \ {"leftObject"}) \cup rd) \ notThisFormat              \* (a set of lists written as !!set does not load)
                  d2 == IF s.ok THEN AlgParse(ty, back, NoneV).dev \cap {"litEq"} ELSE {}   \* lets an earlier Union member take the value
-             IN IF d # {} THEN "/as-alg/" \o DevStr(d) ELSE IF d2 # {} THEN "/as-alg/" \o DevStr(d2) ELSE "/other"
+                 \* the written tree is read back as ANOTHER value (by an earlier Union member) exactly as Alg predicts, second dump included
+                 r  == AlgParse(ty, back, NoneV)
+                 \* (or refused, exactly as Alg predicts)
+                 shift == s.ok /\ r.ok = ok /\ (ok => (Canon(r.v) # Canon(fst) /\ AlgDump(ty, r.v).ok /\ SerMatch(AlgDump(ty, r.v).v, V(s2))))
+             IN IF d # {} THEN "/as-alg/" \o DevStr(d) ELSE IF d2 # {} THEN "/as-alg/" \o DevStr(d2)
+                ELSE IF shift THEN "/as-alg/+reparseShift" ELSE "/other"
   IN /\ o.vok \/ Say("fix", n, "ref/validate")                                            \* a result passes validation
      /\ (o.sok /\ Canon(V(o.second)) = Canon(fst))                                        \* parsing it again changes nothing
           \/ Say("fix", n, IF "setListing" \in b.dev THEN "ref/second/as-alg/+setListing"       \* any order, any outcome
